@@ -292,8 +292,25 @@ def record_runs(ctx, rng, nprog):
     cases = []
     seen_ops = set()
     try:
+        # unbalanced conditionals (an IF / NOTIF that is never closed, a stray ELSE / ENDIF): consensus fails them whatever branch is taken
+        T_, F_ = b"\x01", b""
+        unbalanced = [[T_, T_, 100], [T_, F_, 100, 103], [T_, T_, 99], [T_, F_, 99], [T_, F_, 99, 103], [T_, T_, 100, 103], [T_, 103], [T_, 104], [T_, T_, 99, 104, 104],
+                      [T_, T_, T_, 100, 99, 104], [T_, F_, F_, 100, 100, 104], [T_, T_, 99, T_, 99, 104], [b"\x21" * 5, T_, T_, 100], [T_, T_, 100, b"\x02" * 33, 172],
+                      [T_, F_, 99, 103, 103, 104], [T_, T_, 100, 103, 103], [T_, 99, 103, 104, 103], [F_, 100, 104, 104]]
         for pi in range(nprog):
             cmds = gen_program(rng, 40)
+            if pi < len(unbalanced):
+                cmds = list(unbalanced[pi])
+            elif rng.random() < 0.06:
+                # break the balance of a generated program: drop one ENDIF / IF, or add a stray ELSE / ENDIF / unterminated opener
+                idxs = [k_ for k_, c_ in enumerate(cmds) if c_ in (99, 100, 103, 104)]
+                how = rng.choice(["drop", "stray", "open"])
+                if how == "drop" and idxs:
+                    del cmds[rng.choice(idxs)]
+                elif how == "stray":
+                    cmds.insert(rng.randrange(len(cmds) + 1), rng.choice([103, 104]))
+                else:
+                    cmds += [rng.choice([T_, F_]), rng.choice([99, 100])] + ([103] if rng.random() < 0.4 else [])
             version = rng.choice([1, 2, 2, 3])
             locktime = rng.choice([0, 0, 100, 499999999, 500000000, 500000001, 1700000000, 2 ** 32 - 1])
             sequence = rng.choice([0xFFFFFFFF, 0xFFFFFFFE, 0, 5, 0x400005, 0x80000000, 0x80400001, 0xFFFF, 0x40FFFF])
